@@ -31,7 +31,7 @@ func init() {
 			return 400
 		},
 		Batches: func(t string) int { return 16 },
-		Rule:    "each case = one session: two real secureKeys exchange public keys and run setup/hkdf, a SecureConn on each end (suite chacha/aes128/aes256; transport net.Pipe / buffered in-memory pipe with PRNG-sized deliveries / loopback TCP); both directions run concurrently, each with 2-10 writes of sizes from {0,1,15,1023,1024,1025,2047,2048,4096,65536,random} of position-unique bytes and a reader that uses buffers from {0,1,2,16,1000,1023,1024,1025,4096,random} directly, via io.ReadFull, via bufio.NewReaderSize(conn,4096).Read (goloop's stack) or via bufio Peek/ReadByte (fill path); then an offline tamper phase on the recorded wire image of one direction (bit flip in sealed part, bit flip in the 2 length bytes, swap of adjacent frames, replay, drop of a non-last frame, truncation, reflection to the sender) read back by a fresh peer. Non-trivial = distinct live direction in which at least one Read was issued with a buffer smaller than the plaintext pending in a frame, or a distinct tamper case that hit a frame with at least one intact frame before or after it.",
+		Rule:    "each case = one session: two real secureKeys exchange public keys and run setup/hkdf, a SecureConn on each end (suite chacha/aes128/aes256; transport net.Pipe / buffered in-memory pipe with PRNG-sized deliveries / loopback TCP); both directions run concurrently, each with 2-10 writes of sizes from {0,1,15,1023,1024,1025,2047,2048,4096,65536,random} of position-unique bytes and a reader that uses buffers from {0,1,2,16,1000,1023,1024,1025,4096,random} directly, via io.ReadFull, via bufio.NewReaderSize(conn,4096).Read (goloop's stack) or via bufio Peek/ReadByte (fill path); then an offline tamper phase on the recorded wire image of one direction (bit flip in sealed part, bit flip in the 2 length bytes, swap of adjacent frames, replay, drop of a non-last frame, truncation, reflection to the sender) read back by a fresh peer; one case per batch additionally writes 65836 one-byte frames in one direction (frame counter beyond 2^16) and checks the in-order read of all of them plus replay/reorder of single frames over distances 1, 256, 65535, 65536, 65537. Non-trivial = distinct live direction in which at least one Read was issued with a buffer smaller than the plaintext pending in a frame, or a distinct tamper case that hit a frame with at least one intact frame before or after it.",
 		MinNonTrivial: func(t string) int {
 			if t == ev.Thorough {
 				return 60000
@@ -40,7 +40,9 @@ func init() {
 		},
 		Required: []string{"sessions", "directions_ok", "reads_smaller_than_frame", "reads_bufio_goloop", "reads_bufio_fill", "secrets_checked",
 			"tamper_bitflip_sealed_rejected", "tamper_swap_rejected", "tamper_replay_rejected", "tamper_drop_rejected", "tamper_truncate_rejected",
-			"tamper_length_rejected", "reflection_rejected", "suite_chacha", "suite_aes128", "suite_aes256", "transport_pipe", "transport_bufpipe"},
+			"tamper_length_rejected", "reflection_rejected", "suite_chacha", "suite_aes128", "suite_aes256", "transport_pipe", "transport_bufpipe",
+			"longstream_frames_in_order", "longstream_replay_rejected_distance_65536", "longstream_reorder_rejected_distance_65536",
+			"longstream_replay_rejected_distance_256", "longstream_reorder_rejected_distance_65535", "longstream_reorder_rejected_distance_65537"},
 		Assumptions: []string{
 			"AEAD primitives (Go crypto/aes GCM, x/crypto chacha20poly1305), HKDF and P-256 ECDH are trusted; 'tampered' means bit/frame-level edits of recorded ciphertext, not forgeries",
 			"bytes 2-3 of the clear frame header are not ciphertext: mutated only to look for panics",
@@ -443,6 +445,10 @@ func run(c *ev.Ctx) {
 
 		// ---- offline tamper phase with a fresh session of the same suite
 		tamper(c, r, sa)
+		// one long-stream case per batch (cases 0..15 land in the 16 batches), suites rotating
+		if ci < c.Pick(16, 64) && !c.Stopped() {
+			longStream(c, r, suites[ci%len(suites)])
+		}
 	})
 }
 
@@ -696,5 +702,133 @@ func tamper(c *ev.Ctx, r *rand.Rand, sa network.SecureAeadSuite) {
 		} else {
 			c.Count("reflection_rejected", 1)
 		}
+	}
+}
+
+// ---------- long stream: the per-direction frame counter must never repeat ----------
+
+// longStream writes more than 65536 minimal frames in one direction and checks
+// that (a) the whole stream reads back intact and (b) a frame moved or
+// replayed by a large distance (256, 65535, 65536, 65537 frames) is rejected,
+// exactly like one moved by a small distance.
+func longStream(c *ev.Ctx, r *rand.Rand, sa network.SecureAeadSuite) {
+	const nFrames = 65536 + 300
+	kA, kB := network.VerifNewSecureKey(), network.VerifNewSecureKey()
+	if kA.Setup(sa, kB.PublicKey(), false, 2) != nil || kB.Setup(sa, kA.PublicKey(), true, 2) != nil {
+		c.Violation("setup.error", "long stream phase")
+		return
+	}
+	rec := &netgrp.RecConn{}
+	scA, err := kA.NewConn(rec, sa)
+	if err != nil {
+		c.Violation("newconn.error", err.Error())
+		return
+	}
+	c.Note("longstream suite=%s frames=%d", suiteName[sa], nFrames)
+	plain := make([]byte, nFrames)
+	r.Read(plain)
+	for i := 0; i < nFrames; i++ {
+		if _, err := scA.Write(plain[i : i+1]); err != nil {
+			c.Violation("write.error", err.Error())
+			return
+		}
+	}
+	wire := rec.Buf.Bytes()
+	flen := network.VerifSecureHeaderSize + 1 + overhead
+	if len(wire) != nFrames*flen {
+		c.Violation("wire.frame-layout", map[string]interface{}{"wire_len": len(wire), "expected": nFrames * flen, "note": "long stream of 1-byte writes"})
+		return
+	}
+	fr := func(i int) []byte { return wire[i*flen : (i+1)*flen] }
+	// read `prefix` intact frames, then the frame `inject`; report what the reader did with it
+	probe := func(prefix, inject int) (delivered int, ok bool, rerr error, viol string) {
+		data := make([]byte, 0, (prefix+1)*flen)
+		data = append(data, wire[:prefix*flen]...)
+		data = append(data, fr(inject)...)
+		feed := netgrp.NewFeedConn(data, r)
+		feed.CR.Mode = 3 // hand out what is asked for: the stream is long
+		scB, err := kB.NewConn(feed, sa)
+		if err != nil {
+			return 0, false, err, "newconn.error"
+		}
+		buf := make([]byte, 2048)
+		out := make([]byte, 0, prefix+1)
+		for {
+			n, err := scB.Read(buf)
+			if n > len(buf) || n < 0 {
+				return len(out), false, err, "read.n-exceeds-buffer"
+			}
+			out = append(out, buf[:n]...)
+			if err != nil || len(out) > prefix {
+				k := len(out)
+				if k > prefix {
+					k = prefix
+				}
+				if !bytes.Equal(out[:k], plain[:k]) {
+					return len(out), false, err, "prefix-damaged"
+				}
+				return len(out), len(out) > prefix, err, ""
+			}
+		}
+	}
+	type tc struct {
+		kind            string
+		prefix, inject  int
+		mustBeDelivered bool
+	}
+	cases := []tc{
+		// one expensive pass: 65536+100 frames in order (counter beyond 2^16), then frame #100 again
+		{"replay", 65536 + 100, 100, false},
+		{"reorder", 0, 65536, false}, // frame #65536 delivered first to a fresh reader
+		{"reorder", 3, 65536 + 3, false},
+		{"replay", 256, 0, false}, // controls at other distances
+		{"reorder", 0, 256, false},
+		{"reorder", 0, 65535, false},
+		{"reorder", 0, 65537, false},
+		{"reorder", 2, 65537, false},
+		{"reorder", 0, 1, false},
+		{"control-in-order", 300, 300, true},
+	}
+	for _, t := range cases {
+		if c.Stopped() {
+			return
+		}
+		c.Eval(1)
+		dist := t.inject - t.prefix
+		if dist < 0 {
+			dist = -dist
+		}
+		c.Note("longstream %s prefix=%d inject=%d", t.kind, t.prefix, t.inject)
+		got, accepted, rerr, viol := probe(t.prefix, t.inject)
+		wit := map[string]interface{}{"suite": suiteName[sa], "kind": t.kind, "frames_read_in_order_first": t.prefix, "then_frame_number": t.inject,
+			"distance_in_frames": dist, "bytes_delivered": got, "reader_err": fmt.Sprint(rerr), "frame_plaintext_bytes": 1,
+			"secrets_B": hex.EncodeToString(kB.Secrets()[0]) + "/" + hex.EncodeToString(kB.Secrets()[1]), "injected_frame_hex": hex.EncodeToString(fr(t.inject))}
+		if viol != "" {
+			c.Violation("longstream."+viol, wit)
+			continue
+		}
+		if got < t.prefix {
+			c.Violation("longstream.honest-prefix-rejected", wit)
+			continue
+		}
+		if t.mustBeDelivered {
+			if !accepted || rerr != nil {
+				c.Violation("longstream.in-order-frame-rejected", wit)
+			}
+			continue
+		}
+		if t.prefix > 65536 {
+			c.Count("longstream_frames_in_order", t.prefix)
+		}
+		if accepted {
+			c.Violation(fmt.Sprintf("longstream.%s-accepted.distance%d", t.kind, dist), wit)
+			continue
+		}
+		if rerr == nil || rerr == io.EOF {
+			c.Violation(fmt.Sprintf("longstream.%s-no-error.distance%d", t.kind, dist), wit)
+			continue
+		}
+		c.Count(fmt.Sprintf("longstream_%s_rejected_distance_%d", t.kind, dist), 1)
+		c.NonTrivial(fmt.Sprintf("LS/%s/%s/%d/%d/%x", suiteName[sa], t.kind, t.prefix, t.inject, ev.Hash64(string(fr(t.inject)))))
 	}
 }
